@@ -27,7 +27,9 @@ META["explanation"] += " " + '(DOT-digit) every append of the decimal point is f
 
 META["explanation"] += " " + '(STICKY-src) every disjunct of the flag handed to roundStringNumber, and of every definition of the locals it mentions, is a bool parameter, one of those locals, the literal false, or a comparison of a digit-string unit with DigitChar::Zero. (STICKY-keep) a bool local that accumulates (|=, or an expression containing itself) is not plainly overwritten on any path after it accumulated. (REL-length) in the formatters that take started_at, stream.Length() (or a local copy of it) is never compared with a literal: lengths of the number are Length() - started_at.'
 
-def run(ctx):
+META["explanation"] += " " + 'Taken over unchanged from other modules because a seeded change to this property was reported by them (rules.common.shared): SB-bytes from C14.'
+
+def _run_own(ctx):
     m = ctx.pattern()
     rules = []
 
@@ -775,3 +777,11 @@ def rule_precision_zero(ctx, m):
         r.ob(f.sig, "realToString(..., format)", mapped, "precision 0 in Default format is replaced by 1 before the number is formatted" if mapped else
              "the format is handed on as it is: with precision 0 the Default formatter keeps no digit (2.5 prints as an empty string, 10.4 as `e+01`)", f.loc(calls[0]))
     return r
+
+
+def run(ctx):
+    rules_ = list(_run_own(ctx) or [])
+    from rules.common import shared
+    have = set(r_.rid for r_ in rules_)
+    rules_ += [r_ for r_ in shared(ctx, 'C14', ['SB-bytes']) if r_.rid not in have]
+    return rules_
